@@ -92,6 +92,12 @@ func genC17(r *vh.Runner) {
 	for i := 0; i < nr; i++ {
 		r.Case(fmt.Sprintf("roam-under-writes/%d", i), map[string]any{"case": i}, func(c *vh.Case) { roamUnderWritesRun(r, c, i) })
 	}
+	noc := r.Pick(12, 400)
+	for i := 0; i < noc; i++ {
+		r.Case(fmt.Sprintf("socket-closed-by-owner/%d", i), map[string]any{"case": i}, func(c *vh.Case) {
+			c.Bubble(func() { socketClosedByOwnerRun(r, c, i) })
+		})
+	}
 	nse := r.Pick(12, 300)
 	for i := 0; i < nse; i++ {
 		r.Case(fmt.Sprintf("socket-write-error/%d", i), map[string]any{"case": i}, func(c *vh.Case) { socketWriteErrorRun(r, c, i) })
